@@ -1,7 +1,7 @@
 From Coq Require Import Extraction ExtrOcamlBasic.
-From LT Require Import PgpCodecModel.
+From LT Require Import PgpCodecModel PgpPacketModel.
 Extraction "model.ml" radix64_encode radix64_decode crc24_octets crc24_encode armor_encode armor_decode
   pktlen_encode pktlen_decode body_extract mpi_encode mpi_decode mpi_decode_sum sum16 string_encode string_decode
   s2k_count s2k_stream fpr_v4_input fpr_v5_input keyid_v4 keyid_v5
   pkesk_rsa pkesk_elg pkesk_ecdh sig_packet subpacket pub_packet sed_packet lit_packet uid_packet seipd_packet
-  mdc_packet aead_packet len.
+  mdc_packet aead_packet len packet_decode packet_of.
